@@ -153,9 +153,32 @@ class Repository(object):
             raise PushFailedException(name) from err
 
     def push_all(self, prune=False):
-        prune = '--prune' if prune else ''
+        """Atomically push every branch that was changed in this clone
+        (and, with prune, every deletion made in this clone).
+
+        Branches that were not touched locally are left alone: with
+        `git push --all --prune`, a branch created on the remote after the
+        clone was pruned, and a branch rewound on the remote was
+        fast-forwarded back to the stale local copy.
+
+        """
+        fmt = "git for-each-ref --format='%(refname) %(objectname)' "
         try:
-            self.cmd('git push --all --atomic %s' % prune)
+            local = dict(
+                line[len('refs/heads/'):].split()
+                for line in self.cmd(fmt + 'refs/heads').splitlines())
+            remote = dict(
+                line[len('refs/remotes/origin/'):].split()
+                for line in self.cmd(fmt + 'refs/remotes/origin').splitlines())
+            refspecs = [name for name, sha in local.items()
+                        if remote.get(name) != sha]
+            if prune:
+                refspecs.extend(':' + name for name in remote
+                                if name not in local)
+            if not refspecs:
+                return
+            self.cmd('git push --atomic origin %s' %
+                     ' '.join(quote(refspec) for refspec in refspecs))
         except CommandError as err:
             raise PushFailedException(err) from err
 
